@@ -185,7 +185,7 @@ func c05Edge(c *core.Ctx, idx int) {
 			others = append(others, core.Pick(r, ids[otherStore(store)]))
 		}
 		// counts that are no counts (negative, beyond int32) may be refused or read as a removal, but never stored
-		count := core.Pick(r, []int{0, 1, 2, 3, 1, 2, -1, -3, 1 << 31, 1 << 32, 1<<32 + 2})
+		count := core.Pick(r, []int{0, 1, 2, 3, 1, 2, -1, -3, 1 << 31, 1 << 32, 1<<32 + 2, 1<<31 - 1, 1<<31 - 1}) // the largest count: an increment follows sooner or later
 		var before *dump.Dump
 		_ = e.Db.View(func(tx *bbolt.Tx) error { before = dump.Tx(tx); return nil })
 		st := sc.St(store)
